@@ -97,7 +97,11 @@ func c11BuildPlugin(r *wk.Rand) *c11Plugin {
 			outs[oid] = schema.NewStepOutputSchema(oT, nil, oi > 0)
 		}
 		handlers := map[string]schema.CallableSignal{}
-		for hi := 0; hi <= r.Intn(2); hi++ {
+		nHandlers := r.Intn(4) // 0: a step that has an initialiser but no signal handlers (only sometimes a nil map)
+		if nHandlers == 0 && r.Bool() {
+			handlers = nil
+		}
+		for hi := 0; hi < nHandlers && hi < 3; hi++ {
 			hid := fmt.Sprintf("sig%d", hi)
 			sS, sT := mk()
 			p.sigShape[id][hid] = sS
@@ -114,8 +118,12 @@ func c11BuildPlugin(r *wk.Rand) *c11Plugin {
 		steps = append(steps, schema.NewCallableStepWithSignals[*c11StepData, any](id, inT, outs, handlers, nil, nil,
 			func() *c11StepData { return &c11StepData{token: p.rec.inits.Add(1)} },
 			func(hctx context.Context, d *c11StepData, in any) (string, any) {
+				token := int64(-1) // no step data at all
+				if d != nil {
+					token = d.token
+				}
 				p.rec.mu.Lock()
-				p.rec.stepCalls = append(p.rec.stepCalls, c11Call{stepID, in, d.token, c11Run(hctx)})
+				p.rec.stepCalls = append(p.rec.stepCalls, c11Call{stepID, in, token, c11Run(hctx)})
 				p.rec.mu.Unlock()
 				b.mu.Lock()
 				defer b.mu.Unlock()
@@ -429,6 +437,9 @@ func c11Sequential(c *wk.Ctx, ctx context.Context, r *wk.Rand, p *c11Plugin, env
 					wit["error"] = fmt.Sprint(err)
 					c.Violation(fmt.Sprintf("C11:handler-invocations-%d", len(calls)), fmt.Sprintf("the input is valid but the step handler ran %d times: %v", len(calls), err), wit)
 					continue
+				}
+				if calls[0].token <= 0 {
+					c.Violation("C11:step-data-missing", "the step handler ran without the per-run step data that the step's initialiser creates", wit)
 				}
 				if d := ref.Compare(shape, res.Val, ref.Normalize(shape, calls[0].arg, env), env); d != "" {
 					wit["difference"] = d
